@@ -5,7 +5,8 @@ import RModel.Model.Signals
      prog : one letter per mutating call of the traced command, in order:
               L lock created   U lock removed   u user-tree call   h history.json written   o anything else
             and `P` for the confirmation prompt (guard on … guard off)
-     k    : the signal events are inserted immediately before letter k (for `P`: while the prompt is active)
+     k    : the signal events are inserted immediately before letter k (for `P`: while the prompt is active;
+            k = length: after the last letter); prog `-` = the empty program
    ->  status=<n> calls=<n> lock=<0|1> history=<n> user=<n> exited=<0|1>
 -/
 open Signals
@@ -25,7 +26,7 @@ def itemsOf (c : Char) (n : Nat) : Option (List (Item Eff)) :=
 def build (prog : List Char) (k : Option Nat) (sigs : List (Item Eff)) : Option (List (Item Eff)) :=
   let rec go (cs : List Char) (j : Nat) : Option (List (Item Eff)) :=
     match cs with
-    | [] => some []
+    | [] => some (if k == some j then sigs else [])
     | c :: r =>
       match itemsOf c j, go r (j + 1) with
       | some its, some rest =>
@@ -48,9 +49,9 @@ def dispatch : List String → Option String
     | some res, some s, some rep =>
       let kk := k.toNat?
       if k != "-" && kk.isNone then some "bad-req" else
-      match build prog.toList kk (List.replicate rep (.sig s)) with
+      match build (if prog == "-" then [] else prog.toList) kk (List.replicate rep (.sig s)) with
       | some items =>
-        let r := run genHandlers apEff {} items
+        let r := run genHandlers apEff relWorld {} items
         some s!"status={genStatus res r} calls={r.world.calls} lock={b01 r.world.lock} history={r.world.history} user={r.world.user.length} exited={b01 r.exited.isSome}"
       | none => some "bad-req"
     | _, _, _ => some "bad-req"
